@@ -6,6 +6,17 @@
 From PM Require Import Lib.Bytes Lib.PyStr Net.Static Net.StaticSpec.
 From Coq Require Import ZArith.
 
+(* byte strings of the generated case files are written as hexadecimal string literals
+   (a string token is parsed much faster than a list of numerals) *)
+Definition hexval (c : ascii) : N :=
+  let n := N_of_ascii c in
+  if (48 <=? n) && (n <=? 57) then n - 48 else if (97 <=? n) && (n <=? 102) then n - 87 else 0.
+Fixpoint hx (s : string) : bytes :=
+  match s with
+  | String a (String b t) => (16 * hexval a + hexval b) :: hx t
+  | _ => []
+  end.
+
 Inductive obs (A : Type) := OkObs (a : A) | ErrObs (code : N).
 Arguments OkObs {A} a.
 Arguments ErrObs {A} code.
@@ -31,6 +42,8 @@ Definition guess_of_log (log : list (bytes * option bytes)) (x : bytes) : option
   match assoc x log with Some y => y | None => None end.
 
 Definition tree := list (list bytes * entry).
+Definition mkdir (names : list bytes) : list bytes * entry := (names, EDir).
+Definition mkfile (names : list bytes) (content : bytes) : list bytes * entry := (names, EFile content).
 
 Inductive case :=
 (* os.path.normpath(p) *)
@@ -45,7 +58,20 @@ Inductive case :=
           (guesslog : list (bytes * option bytes)) (gzlog : list (bytes * bytes))
           (path : bytes) (expected : obs bytes)
 (* the confinement decision alone, against realpath containment (independent reference) *)
-| CInside (dir path : bytes) (expected : bool).
+| CInside (dir path : bytes) (expected : bool)
+(* the client-side reading of a reply actually produced by the implementation: head lines and body
+   as Python's bytes.split gives them *)
+| CRead (pkt : bytes) (expected : option (list bytes * bytes))
+(* a 200 reply produced by the implementation, read by the reference client and decoded with the
+   inverse of the recorded gzip.compress calls, against the bytes of the file on disk *)
+| CClient (pkt : bytes) (gzlog : list (bytes * bytes)) (expected : bytes).
+
+(* inverse of the gzip.compress transcript *)
+Fixpoint gunz_of_log (log : list (bytes * bytes)) (y : bytes) : bytes :=
+  match log with
+  | [] => []
+  | (x, y') :: t => if bytes_eqb y y' then x else gunz_of_log t y
+  end.
 
 Fixpoint names_list_eqb (x y : list bytes) : bool :=
   match x, y with
@@ -67,4 +93,12 @@ Definition check_case (c : case) : bool :=
   | CInside dir path e =>
       Bool.eqb (confinement_check dir path) e
       && Bool.eqb (names_prefixb (resolve dir) (resolve (dir ++ path))) e
+  | CRead pkt e =>
+      option_eqb (fun x y => names_list_eqb (fst x) (fst y) && bytes_eqb (snd x) (snd y)) (read_reply pkt) e
+  | CClient pkt gzlog e =>
+      match read_reply pkt with
+      | Some (status :: hdrs, body) =>
+          bytes_eqb status (bs "HTTP/1.1 200 OK") && bytes_eqb (client_body (gunz_of_log gzlog) hdrs body) e
+      | _ => false
+      end
   end.
